@@ -7,9 +7,13 @@ Decided:
         The predicate's AST is interpreted (pyint) on (request, candidate) pairs that agree everywhere except in one field,
         both directions, over representative values (other host, other port, tls on/off, no/other upstream proxy by
         scheme, host and port, tcp/udp) - so a rewritten predicate (early returns, unpacked or normalised address, helper
-        calls) is analysed, not refused; when it is a plain conjunction of field equalities the symbolic path table
-        (equality atoms, all values) must agree too.  Host names differing only in case are not sampled as "different".
-  R08.2 HttpLayer.get_connection (path enumeration, conditions as named atoms): inside the reuse loop a connection is
+        calls) is analysed, not refused; when it is decided by field equalities alone (conjunction, early returns, tuples
+        compared element-wise, aliases - read by path enumeration with equality atoms) the symbolic table (all values)
+        must agree too.  Host names differing only in case are not sampled as "different".
+  R08.2 HttpLayer.get_connection (path enumeration, conditions as named atoms; everything is named by the VALUE it is bound to:
+        loop variables, aliases, predicate temporaries, helper parameters - `self.<helper>()` calls are inlined - so
+        guard clauses / `continue`, extracted helpers, renamed locals and added logging / assertions read like the
+        original; a completion counts where it is handed to event_to_child): inside a loop iteration the loop's connection is
         handed out / waited on / its error reported only in an iteration where connection_spec_matches(connection) was
         true, and handed out only if it is not still being established and is connected; the context connection is
         reused (no new Server created) only when connection_spec_matches(self.context.server) holds (table over the
@@ -23,6 +27,8 @@ Decided:
         changes (decision table name x open x changed); otherwise stores the value.
   R08.5 HttpLayer.register_connection takes the waiters out of waiting_for_establishment, answers every waiter exactly
         once, with (None, err) iff the attempt failed and (connection, None) otherwise.
+Assumption of the value-based reading: a predicate bound to a single-assignment temporary is as true where the temporary is
+tested as where it was bound.
 NOT decided: that HttpStream only ever sends on context.server after make_server_connection succeeded (C03 explores the
 order of GetHttpConnection and sends), what addons do to connections, Connection.__eq__.
 """
@@ -51,15 +57,9 @@ from ..selftest import Mutant
 from ._helpers_A import ASpec
 from ._helpers_A import compare_pair
 from ._helpers_A import dataclass_fields
-from ._helpers_A import is_self_call
-from ._helpers_A import isinstance_of
-from ._helpers_A import loops_over
-from ._helpers_A import method_call_on
 from ._helpers_A import params_of
 from ._helpers_A import proj
-from ._helpers_A import run_block
 from ._helpers_A import show
-from ._helpers_A import truthiness_atom
 
 PROP = "C08"
 REG = {
@@ -162,15 +162,17 @@ def _multi_assigned(fn) -> set:
 
 
 class DSpec(ASpec):
-    """ASpec whose hooks see values in the right frame (``cur_depth``), with symbolic loop variables (``loop_value(for_node, st, spec)``),
-    deferred predicate / tuple temporaries and module-level literals (``const_resolver(expr) -> literal node | None``)."""
+    """ASpec whose hooks see values in the right frame (``cur_depth``), with symbolic loop variables (``loop_value(for_node, st, spec)``)
+    and unpacking targets (``bind_value(target_name_node, st, spec)``), deferred predicate / tuple temporaries and module-level
+    literals (``const_resolver(expr) -> literal node | None``)."""
 
     cur_depth = 0
     replaying = 0
 
-    def __init__(self, *a, loop_value=None, const_resolver=None, **kw):
+    def __init__(self, *a, loop_value=None, const_resolver=None, bind_value=None, **kw):
         super().__init__(*a, **kw)
         self._loop_value = loop_value
+        self._bind_value = bind_value
         self._const_resolver = const_resolver
         self._synth: dict = {}
         self._multi: dict = {}
@@ -312,12 +314,16 @@ class DSpec(ASpec):
 
     # ---- bindings
     def bind(self, target, value_expr, st, depth, value=None):
-        if value_expr is None and value == UNKNOWN and self._loop_value is not None and isinstance(target, ast.Name):
+        # targets the engine knows nothing about (loop variables, elements of an unpacked value): ask the rule for a symbol
+        if value_expr is None and value == UNKNOWN and isinstance(target, ast.Name):
             p = getattr(target, "_parent", None)
-            if isinstance(p, (ast.For, ast.AsyncFor)) and p.target is target:
+            lv = None
+            if self._loop_value is not None and isinstance(p, (ast.For, ast.AsyncFor)) and p.target is target:
                 lv = self.at(depth, self._loop_value, p, st, self)
-                if lv is not None:
-                    value = lv
+            elif self._bind_value is not None:
+                lv = self.at(depth, self._bind_value, target, st, self)
+            if lv is not None:
+                value = lv
         return Spec.bind(self, target, value_expr, st, depth, value=value)
 
 
@@ -369,6 +375,10 @@ class DEngine(Engine):
                 new._parent = getattr(node, "_parent", None)
                 self._assigns[id(node)] = new
             node = self._assigns[id(node)]
+        if isinstance(node, ast.Break) and getattr(sp, "break_event", None) is not None:
+            out = Out.empty()
+            out.brk = {s.emit(sp.break_event(node, s)) for s in states}
+            return out
         if isinstance(node, ast.Return) and depth > 0 and node.value is not None:
             # `return <predicate>` of an inlined helper: decided leaf by leaf, so its atoms appear on the caller's path
             if _is_pred(node.value):
@@ -430,6 +440,9 @@ def _helper_resolver_in(ctx, rel, cls_qual, stop):
 
 def _helper_resolver(ctx, cls_qual, stop):
     return _helper_resolver_in(ctx, I, cls_qual, stop)
+
+
+helper_resolver = _helper_resolver  # public name (C15 analyses functions of the same module)
 
 
 ENTRY_POINTS = ("event_to_child", "get_connection", "register_connection", "make_stream", "_handle_event")
@@ -602,6 +615,8 @@ def _gc_spec(ctx, ev, scenario, fn):
             return ("reply", _conn_tag(expr.elts[0], st, sp), _conn_tag(expr.elts[1], st, sp))
         if isinstance(expr, ast.Subscript) and isinstance(expr.ctx, ast.Load) and canon_chain(expr.value, st, sp) == "self.waiting_for_establishment":
             return ("waitlist", _conn_tag(expr.slice, st, sp))
+        if isinstance(expr, ast.Call) and not expr.args and not expr.keywords and canon_chain(expr.func, st, sp) == "self.context.fork":
+            return sym("context")  # the forked context that gets the (new or reused) server connection, whatever the local is called
         return None
 
     def label(node, st, sp):
@@ -682,6 +697,9 @@ def _gc_spec(ctx, ev, scenario, fn):
         def loop_event(self, node, entered, st):
             return ("loop", norm(node.iter), entered)
 
+        def break_event(self, node, st):
+            return ("break",)
+
     return GC(label=label, atom=atom, scenario=scenario, val=val, unroll=1, loop_value=loop_value,
               resolver=_helper_resolver(ctx, "HttpLayer", ENTRY_POINTS))
 
@@ -703,14 +721,18 @@ def _r082(ctx):
     prob = {}
     for tr, how, _ in traces:
         conds = {}
-        inloop = False
+        inloop = False  # inside an iteration
+        held = False  # the loop was left by `break`: its variable still is this iteration's connection, the iteration's facts hold
         for t in tr:
+            mine = inloop or held
             if t[0] == "loop":
-                inloop = t[2]
+                inloop, held = t[2], False
                 conds = {}
+            elif t[0] == "break":
+                inloop, held = False, inloop
             elif t[0] == "cond":
                 conds[t[1]] = t[2]
-            elif inloop and t[0] == "complete" and t[1] == "loop":
+            elif mine and t[0] == "complete" and t[1] == "loop":
                 seen["handout"] += 1
                 if t[2] != "None":
                     prob.setdefault("hand-out under match", f"an existing connection is handed to the request together with an error ({t[2]})")
@@ -720,16 +742,19 @@ def _r082(ctx):
                     prob.setdefault("hand-out while establishing", "a connection that is still being established (in waiting_for_establishment) is handed out")
                 elif conds.get("CONN") is not True:
                     prob.setdefault("hand-out connected", "a connection that is not connected is handed out for reuse")
-            elif inloop and t[0] == "wait" and t[1] == "loop":
+            elif mine and t[0] == "wait" and t[1] == "loop":
                 seen["wait"] += 1
                 if conds.get("M") is not True:
                     prob.setdefault("wait under match", "the request waits for a pending connection whose spec was not matched")
-            elif inloop and t[0] == "complete" and t[1] == "None":
+            elif mine and t[0] == "complete" and t[1] == "None" and (inloop or t[2] == "loop.error"):
                 seen["error"] += 1
                 if conds.get("M") is not True or t[2] != "loop.error" or conds.get("ERR") is not True:
                     prob.setdefault("error under match", "the request is failed with the error of a connection that was not matched / has no error")
             elif inloop and t[0] in ("complete", "wait", "register", "new_server"):
                 prob.setdefault("loop effect", f"unmodelled effect inside the reuse loop: {t}")
+            elif not mine and t[0] in ("complete", "wait") and (t[1] == "loop" or t[2] == "loop.error"):
+                # (leaving the loop by `break` keeps the iteration's facts; this is the variable of an exhausted loop)
+                raise AnalysisError(f"get_connection uses the reuse loop's variable after the loop has run out: {t} (shape not modelled)")
     ctx.require(prob or all(seen.values()), f"get_connection: reuse-loop outcomes not all found: {seen}")
     kind_of = {"hand-out": "handout", "wait": "wait", "error": "error", "loop": "handout"}
     for k, n in seen.items():
@@ -798,75 +823,127 @@ def _r082(ctx):
 
 
 # ---------------------------------------------------------------------------------------------------
-def _r083(ctx):
+def server_connection_paths(ctx):
+    """HttpStream.make_server_connection: (function, {err world: [(events, how, returned value)]}, set of GetHttpConnection argument
+    source tables).  Events: ('ask', sources) for `yield GetHttpConnection(..)`, ('bind', chain, value) for assignments to
+    self.context.server / self.flow.server_conn, ('protoerr', args) for a ResponseProtocolError; the unpacked reply reads `conn`, `err`
+    (also used by C15)."""
     fn = ctx.func(I, "HttpStream.make_server_connection")
-    w = (I, "HttpStream.make_server_connection", fn)
     fields = dataclass_fields(ctx.model.cls(I, "GetHttpConnection"))
-    calls = [n for n in ast.walk(fn) if isinstance(n, ast.Call) and last_attr(n.func) == "GetHttpConnection"]
-    ctx.require(len(calls) == 1 and isinstance(getattr(calls[0], "_parent", None), ast.Yield), "make_server_connection: expected exactly one `yield GetHttpConnection(...)`")
-    call = calls[0]
-    args = dict(zip(fields, call.args))
-    for k in call.keywords:
-        ctx.require(k.arg in fields, f"GetHttpConnection called with unknown keyword {k.arg}")
-        args[k.arg] = k.value
 
-    def src(e):
+    def describe(e, st, sp):
+        """Where a value comes from, through temporaries: a chain of the flow, a tuple of such, `chain == constant`."""
+        if isinstance(e, ast.Name):
+            v = sp.v(e, st)
+            if _is_deferred(v) or _is_deferred(v, "tup"):
+                return sp.at(v[2], describe, v[1], st, sp)
         if isinstance(e, ast.Tuple):
-            return tuple(src(x) for x in e.elts)
+            return tuple(describe(x, st, sp) for x in e.elts)
         cp = compare_pair(e, (ast.Eq,))
         if cp and isinstance(cp[1], ast.Constant):
-            return (attr_chain(cp[0]), "==", cp[1].value)
+            return (describe(cp[0], st, sp), "==", cp[1].value)
         if cp and isinstance(cp[0], ast.Constant):
-            return (attr_chain(cp[1]), "==", cp[0].value)
-        return attr_chain(e) or ("?", norm(e))
+            return (describe(cp[1], st, sp), "==", cp[0].value)
+        return canon_chain(e, st, sp) or ("?", norm(e))
 
+    def val(expr, st, sp):
+        if isinstance(expr, ast.Call) and last_attr(expr.func) == "GetHttpConnection":
+            args = dict(zip(fields, expr.args))
+            for k in expr.keywords:
+                if k.arg not in fields or k.arg in args:
+                    raise AnalysisError(f"GetHttpConnection called with unknown / repeated keyword {k.arg}")
+                args[k.arg] = k.value
+            if len(expr.args) > len(fields) or any(isinstance(a, ast.Starred) for a in expr.args):
+                raise AnalysisError(f"GetHttpConnection call not modelled: {norm(expr)}")
+            return ("getconn", tuple(sorted((f, describe(a, st, sp)) for f, a in args.items())))
+        return None
+
+    def reply_targets(target):
+        """(connection, err) Name nodes if ``target`` is an element of `a, b = yield <GetHttpConnection value>`."""
+        tup = getattr(target, "_parent", None)
+        asg = getattr(tup, "_parent", None)
+        if isinstance(tup, (ast.Tuple, ast.List)) and isinstance(asg, ast.Assign) and isinstance(asg.value, ast.Yield) and len(tup.elts) == 2:
+            return asg, tup.elts
+        return None, None
+
+    def bind_value(target, st, sp):
+        asg, elts = reply_targets(target)
+        if asg is not None and asg.value.value is not None and sp.v(asg.value.value, st)[:1] == ("getconn",):
+            return sym("conn") if target is elts[0] else sym("err")
+        return None
+
+    def label(node, st, sp):
+        out = []
+        for n in eval_order(node):
+            if isinstance(n, ast.Yield) and n.value is not None:
+                v = sp.v(n.value, st)
+                if v[:1] == ("getconn",):
+                    asg = getattr(n, "_parent", None)
+                    t = asg.targets[0] if isinstance(asg, ast.Assign) and len(asg.targets) == 1 else None
+                    if not (isinstance(t, (ast.Tuple, ast.List)) and len(t.elts) == 2 and all(isinstance(e, ast.Name) for e in t.elts)):
+                        raise AnalysisError("make_server_connection: reply is not unpacked as (connection, err)")
+                    out.append(("ask", v[1]))
+        if isinstance(node, ast.Assign):
+            for t in node.targets:
+                ch = canon_chain(t, st, sp)
+                if ch in ("self.context.server", "self.flow.server_conn"):
+                    out.append(("bind", ch, canon_chain(node.value, st, sp) or norm(node.value)))
+        for n in eval_order(node):
+            if isinstance(n, ast.Call) and last_attr(n.func) == "ResponseProtocolError":
+                out.append(("protoerr", tuple(canon_chain(a, st, sp) or norm(a) for a in list(n.args) + [k.value for k in n.keywords])))
+        return out
+
+    def atom(expr, st, sp):
+        ts = truthiness_subject(expr)
+        if ts is not None and sp.v(ts[0], st) == sym("err"):
+            return ("ERR", ts[1])
+        return None
+
+    resolver = _helper_resolver(ctx, "HttpStream", ("handle_protocol_error", "make_server_connection"))
+    results = {}
+    asks = set()
+    for ERR in (False, True):
+        traces, _ = run_d(fn.body, DSpec(label=label, atom=atom, val=val, bind_value=bind_value, scenario={"ERR": ERR}, resolver=resolver))
+        ctx.paths += len(traces)
+        ctx.require(traces, "make_server_connection: no path")
+        results[ERR] = traces
+        for tr, how, s in traces:
+            a = [t[1] for t in tr if t[0] == "ask"]
+            ctx.require(len(a) == 1, f"make_server_connection: expected exactly one `yield GetHttpConnection(...)` per path, saw {len(a)}")
+            asks.add(a[0])
+    return fn, {k: [(proj(tr, ("ask", "bind", "protoerr")), how, s.get("$ret")) for tr, how, s in v] for k, v in results.items()}, asks
+
+
+def _r083(ctx):
+    fn, results, asks = server_connection_paths(ctx)
+    w = (I, "HttpStream.make_server_connection", fn)
     want = {
         "address": ("self.flow.request.host", "self.flow.request.port"),
         "tls": ("self.flow.request.scheme", "==", "https"),
         "via": "self.flow.server_conn.via",
         "transport_protocol": "self.flow.server_conn.transport_protocol",
     }
+
+    def unmodelled(got):
+        return isinstance(got, tuple) and (got[:1] == ("?",) or any(unmodelled(g) for g in got))
+
+    ctx.require(len(asks) == 1, "make_server_connection: GetHttpConnection is built differently on different paths (not modelled)")
+    args = dict(next(iter(asks)))
     for f, exp in want.items():
-        got = src(args[f]) if f in args else None
-        ctx.require(not (isinstance(got, tuple) and "?" in [got[0]] + [g[0] for g in got if isinstance(g, tuple)]), f"make_server_connection: source of GetHttpConnection.{f} has a shape that is not modelled: {got}")
+        got = args.get(f)
+        ctx.require(not unmodelled(got), f"make_server_connection: source of GetHttpConnection.{f} has a shape that is not modelled: {got}")
         ctx.check(got == exp, "R08.3", w, f"GetHttpConnection.{f} source",
                   f"the connection request's `{f}` must come from the flow's current {exp} (an addon may have rewritten the destination), saw {got}",
                   desc=f"GetHttpConnection.{f} <- {exp}")
     # result binding
-    tgt = getattr(call, "_parent")._parent
-    ctx.require(isinstance(tgt, ast.Assign) and isinstance(tgt.targets[0], ast.Tuple) and len(tgt.targets[0].elts) == 2 and all(isinstance(e, ast.Name) for e in tgt.targets[0].elts),
-                "make_server_connection: reply is not unpacked as (connection, err)")
-    cvar, evar = (e.id for e in tgt.targets[0].elts)
-
-    def label(node, st, sp):
-        out = []
-        if isinstance(node, ast.Assign):
-            for t in node.targets:
-                ch = attr_chain(t)
-                if ch in ("self.context.server", "self.flow.server_conn"):
-                    out.append(("bind", ch, attr_chain(node.value) or norm(node.value)))
-        return out
-
-    def atom(expr, st, sp):
-        if isinstance(expr, ast.Name) and expr.id == evar:
-            return ("ERR", True)
-        cp = compare_pair(expr, (ast.Is, ast.IsNot))
-        if cp and isinstance(cp[0], ast.Name) and cp[0].id == evar and isinstance(cp[1], ast.Constant) and cp[1].value is None:
-            return ("ERR", isinstance(cp[2], ast.IsNot))
-        return None
-
     for ERR in (False, True):
-        traces, _ = run_block(fn.body, ASpec(label=label, atom=atom, scenario={"ERR": ERR}))
-        ctx.paths += len(traces)
-        ctx.require(traces, "make_server_connection: no path")
-        for tr, how, s in traces:
+        for tr, how, ret in results[ERR]:
             binds = sorted(t for t in tr if t[0] == "bind")
-            ret = s.get("$ret")
             if ERR:
                 ok = not binds and ret == C(False) and how == "return"
                 why = "on a failed connection attempt nothing may be bound and False must be returned"
             else:
-                ok = binds == [("bind", "self.context.server", cvar), ("bind", "self.flow.server_conn", cvar)] and ret == C(True) and how == "return"
+                ok = binds == [("bind", "self.context.server", "conn"), ("bind", "self.flow.server_conn", "conn")] and ret == C(True) and how == "return"
                 why = "on success context.server and flow.server_conn must both be bound to the connection that was returned for this request"
             ctx.check(ok, "R08.3", w, f"result binding err={ERR}", f"{why}; saw {binds} return {ret}", desc=f"make_server_connection err={ERR}: {binds or 'no binding'}, returns {ret[1] if is_const(ret) else ret}")
     ctx.expect_instances("R08.3", 6)
@@ -1052,6 +1129,7 @@ def check(ctx):
     ctx.rule("R08.4", "Server.__setattr__ refuses to change address/via while OPEN (decision table)")
     ctx.rule("R08.5", "register_connection answers every waiter once, with an error iff the attempt failed")
     ctx.trust("Connection.__eq__/__hash__, dict/defaultdict semantics")
+    ctx.assume("a predicate bound to a single-assignment temporary has the same truth where the temporary is tested (nothing it reads is rebound in between)")
     _r081(ctx)
     _r082(ctx)
     _r083(ctx)
